@@ -83,15 +83,27 @@ PROPS = {
     ),
     "C06": dict(
         title="Group-element encodings are canonical, injective and strictly decoded",
-        verus=[], kani=[],
+        verus=[("p256_decode", None, "quick")], kani=[],
         cases=_c(["decode_strict", "encode_equals", "subgroup_flags", "neutral_consistency"]),
-        level="exploration",
+        level_text="P-256 Point::set_decode is proved by Verus, for every byte string of every length, to return the SEC 1 section 2.3.4 result: status all-ones exactly for 0x00 (neutral), 0x02/0x03 || X with X < p big-endian and X^3 - 3X + b a square (Y = the root of the requested parity), 0x04 || X || Y with X, Y < p on the curve; every other string (wrong length, wrong prefix, non-canonical coordinate, off-curve) gives status 0 and the neutral point; the stored coordinates are the decoded ones with Z = 1. Field operations are declared value-level contracts (decode32, +, -, *, square, sqrt, equals, select, set_cond, encode).",
+        level_note="Declared dependencies: ModInt256 value-level operation contracts (spec/modint_value_ops.vrs; the Montgomery-level statements are proved in the modint_* units, the division by 2^256 between the two is by reading), bswap32 (byte reversal), constants written w64be(..) denote those integers. In the (impossible on a prime-order curve, not provable here) case X^3-3X+b == 0 the parity clause is waived. Other curves and encoders: stand-in only until their units are registered.",
+        assumptions=["ModInt256 value-level contracts (decode32 strict with value, ring operations mod m, sqrt: status iff square and even root, equals/select/set_cond, encode32 little-endian canonical): declared",
+                     "p256::bswap32 reverses 32 bytes: declared",
+                     "Point::B / Point::THREE (compile-time Montgomery conversion of the literal limbs) represent the integers written in the source: declared axiom over the literals extracted from the source on every run",
+                     "sval(x) in 0..m-1 for every ModInt256 value, ZERO/ONE represent 0/1: declared axioms"],
+        not_reached=["encoders, equals/isneutral of P-256", "all other curves and abstractions (units pending)"],
     ),
     "C07": dict(
         title="Ed25519/Ed448 verification equals the strict cofactored RFC 8032 predicate",
-        verus=[], kani=[],
+        verus=[("ed25519_verify", None, "quick")], kani=[],
         cases=["ed25519_sign", "ed25519_verify", "ed448_sign", "ed448_verify"],
-        level="exploration",
+        level_text="Ed25519 PublicKey::verify_inner and verify_raw / verify_ctx / verify_ph are proved by Verus, for every key, signature string, context and message, to return exactly the RFC 8032 5.1.7 predicate: length 64, R = first 32 bytes strictly decodable, S = little-endian last 32 bytes below L, k = SHA-512(dom2(F, C) || R || A || M) mod L with dom2 empty for the pure variant and 'SigEd25519 no Ed25519 collisions' || F || len(C) || C otherwise (F = 0 ctx, 1 ph), and the cofactored equation on (A, R, S, k). This is a glue-level statement: SHA-512, the strict point decoder, the scalar decoders and the cofactored-equation helper are declared dependencies (assumed contracts over uninterpreted functions).",
+        level_note="Declared (assumed) dependencies: Sha512 new/update/finalize (update's append property is proved on the real struct in unit sha2_update, C17), Point::decode == RFC 8032 5.1.3 strict decoding, Scalar::decode32 / decode_reduce, Point::verify_helper_vartime == [8]([S]B - R - [k]A) = neutral. Signing and Ed448: stand-in only (until their units are registered).",
+        assumptions=["Sha512::new/update/finalize compute SHA-512 of the concatenation of the update arguments (declared; `impl AsRef<[u8]>` restated as trait ByteSrc for &[u8] and &[u8; N])",
+                     "ed25519 Point::decode(buf) is the strict RFC 8032 5.1.3 decoder (uninterpreted pt_dec); property C06 covers it at stand-in level",
+                     "ModInt256::decode32: status all-ones iff 32 bytes and little-endian value < modulus, value preserved; decode_reduce: value == LE(buf) mod modulus (declared; C05 stand-in for ModInt256)",
+                     "Point::verify_helper_vartime(A; R, s, k) returns whether [8]([s]B - R - [k]A) is the neutral (declared, uninterpreted cof_eq; C10 stand-in covers it against a reference)"],
+        not_reached=["sign_inner, PrivateKey::from_seed", "ed448 verify / sign", "verify_helper_vartime internals (Lagrange split, half-width combination)"],
     ),
     "C08": dict(
         title="ECDSA (P-256, secp256k1): standard verification, documented nonce derivation",
